@@ -386,14 +386,8 @@ def check(run):
         elif total <= 100000:
             jobs.append((li, "blocks", mk_run(bs, [[4096] * (len(b) // 4096 + 1) for b in bs], caps=[4096], init=init)))
     lines = [j[2] for j in jobs]
-    # neighbouring jobs have similar cost (the large members sit together): deal them out over the
-    # parallel shards instead of handing each shard one contiguous block
-    order = [i for r in range(vlib.NCPU) for i in range(r, len(lines), vlib.NCPU)]
-    spread = [lines[i] for i in order]
-    ia_s, ma_s = tools.impl(spread), tools.model(spread)
-    ia, ma = [None] * len(lines), [None] * len(lines)
-    for pos, i in enumerate(order):
-        ia[i], ma[i] = ia_s[pos], ma_s[pos]
+    ia = tools.impl(lines)
+    ma = tools.model(lines)
     nbad, corr = 0, []
     for l, a, m in zip(lines, ia, ma):
         if canon(a) != m:
@@ -408,7 +402,7 @@ def check(run):
     sjobs = [(k, "CSPEC %s %s" % (lists[li][0], " ".join(hx(m["bytes"]) for m in lists[li][1])))
              for k, (li, var, l) in enumerate(jobs) if var == "one-shot" and sum(len(m["bytes"]) for m in lists[li][1]) <= 40000]
     sres = dict(zip([k for k, _ in sjobs], tools.model([s for _, s in sjobs])))
-    cells, nviol, nspec_applied = {}, 0, 0
+    cells, nviol, nspec_applied, nmarker_out = {}, 0, 0, 0
     pending = []    # violations found: (unknown?, script size, job index, case, line, members, why)
     sizes = {"empty": 0, "1-3B content": 0, "short(<5B) member": 0, ">=64KiB member": 0}
     for k, ((li, var, l), p, d, g) in enumerate(zip(jobs, parsed, dec, decg)):
@@ -428,6 +422,10 @@ def check(run):
                 why = "brotli-decompressor rejects the concatenation"
             elif rd is not None and rd != want:
                 why = "brotli-decompressor decodes to different bytes"
+            elif k in sres and sres[k].endswith("M=0"):
+                # outside the domain of theorem C03_bits (a 5/6-byte string whose end marker lies inside the
+                # look-ahead bytes is not a Brotli stream): the decoders above are the only judges
+                nmarker_out += 1
             elif k in sres:
                 nspec_applied += 1
                 if sres[k].startswith("OK") and unhx(sres[k].split()[1]) != p["out"]:
@@ -492,6 +490,7 @@ def check(run):
                        "specification concat_spec. distinct_nontrivial = distinct scripts that cross at least one member boundary (>= 2 members or a window override)")
     run.cov["traces_validated_against_impl"] = len(lines)
     run.cov["bit_level_spec_applied"] = nspec_applied
+    run.cov["lists_outside_markers_ok"] = nmarker_out
     run.cov["member_lists"] = len(lists)
     run.cov["state_carry_members"] = sum(1 for p in pool if p.get("carry"))
     run.cov["state_carry_lists"] = sum(1 for (_, m0) in lists if any(m.get("carry") for m in m0))
